@@ -347,7 +347,8 @@ class EIG(BaseRoutine):
             logger.debug(f"Parameter sweep: round={count}")
 
             for idx, (param, pos) in enumerate(zip(params, positions)):
-                param.v[pos] = val[idx]
+                # `set` also updates the time constants stored in `dae.Tf`
+                param.owner.set(param.name, param.owner.idx.v[pos], 'v', val[idx])
                 logger.debug(f"Set {param.name} = {param.v[pos]}")
 
             self.system.TDS.init()
